@@ -612,7 +612,13 @@ def sym_imag(x):
 
 
 def sym_allclose(a, b, rtol=1e-5, atol=1e-8, **kw):
-    raise Inconclusive("allclose on symbolic arrays")
+    """NumPy's definition, |a - b| <= atol + rtol * |b| for every entry; each undecided entry is a fork like any other comparison"""
+    ra, rb = np.broadcast_arrays(np.asarray(_raw(a), dtype=object), np.asarray(_raw(b), dtype=object))
+    for x, y in zip(ra.ravel(), rb.ravel()):
+        x, y = C(x), C(y)
+        if not bool(abs(x - y) <= atol + rtol * abs(y)):
+            return False
+    return True
 
 
 def sym_isclose(a, b, rtol=1e-5, atol=1e-8, **kw):
